@@ -21,6 +21,10 @@ impl<'a, T: VecData<T> + 'a, C: Comparator<T> + fmt::Debug> VecOperator<'a> for 
     }
 
     fn execute(&mut self, _: bool, scratchpad: &mut Scratchpad<'a>) -> Result<(), QueryError> {
+        if self.n == 0 {
+            // LIMIT 0: nothing to select (and no heap root to compare against)
+            return Ok(());
+        }
         let mut input = scratchpad.get(self.input);
         let mut indices = scratchpad.get_mut(self.indices);
         let mut keys = scratchpad.get_mut(self.keys);
